@@ -320,6 +320,27 @@ def d_c09_string_continuation_at_end():
     assert sv.compile('[title="abc\\\n"]').selectors == sv.compile('[title="abc"]').selectors
 
 
+def d_c13_trailing_wildcard():
+    """A language range ending in '-*' matches like the range without it (C13-R7, RFC 4647 table)."""
+    import soupsieve as sv
+    s = soup('<p id="a" lang="de-CH">x</p><p id="b" lang="de">y</p><p id="c" lang="en">z</p>')
+    assert ids(sv.select(':lang("de-*")', s)) == ['a', 'b']
+    assert ids(sv.select(':lang("de-*-*")', s)) == ['a', 'b']
+    assert ids(sv.select(':lang("de-")', s)) == []
+
+
+def d_c20_end_of_multiline_pattern():
+    """An error at the very end of a multi-line pattern is reported on the last line (C20-R7 table)."""
+    import soupsieve as sv
+    try:
+        sv.compile('div,\np:is(a')
+    except sv.SelectorSyntaxError as e:
+        assert (e.line, e.col) == (2, 7), (e.line, e.col)
+        assert e.context.splitlines()[-1].strip() == '^' and e.context.splitlines()[-2].startswith('--> ')
+    else:
+        raise AssertionError('no error')
+
+
 DEMOS = {k[2:]: v for k, v in list(globals().items()) if k.startswith('d_')}
 
 if __name__ == '__main__':
